@@ -6,12 +6,21 @@
 (* Nodes[i+1] = [id, pre, x, r0, e]; an edge is                              *)
 (*   <<to, request index, ok, flag, changed mask, restart equal>>            *)
 (* changed mask: 1 channels, 2 node state, 4 store, 8 tracker.               *)
+(* Protocol-handler level graphs (`nhand explore`, ND_LEVEL = "handler":     *)
+(* judged against Node!HStep) carry two more observations per edge:          *)
+(*   <<.., nmuts, crash>>  nmuts = number of mutations the transactional     *)
+(*   store's prepare() returned for the request; crash = a signer restored   *)
+(*   from the local store as it was BEFORE commit equals the pre-request     *)
+(*   signer (and with the prepared mutations added: the post-request one).   *)
 (***************************************************************************)
 EXTENDS Node, Json, IOUtils, SequencesExt
 
 Nodes    == ndJsonDeserialize(IOEnv.ND_NODES)
 Alphabet == JsonDeserialize(IOEnv.ND_ALPHABET)
-K == [atomicAllowlist |-> IOEnv.ND_ATOMIC_ALLOWLIST = "true"]
+Handler  == "ND_LEVEL" \in DOMAIN IOEnv /\ IOEnv.ND_LEVEL = "handler"
+K == [atomicAllowlist |-> IOEnv.ND_ATOMIC_ALLOWLIST = "true",
+      approve |-> IF "ND_APPROVE" \in DOMAIN IOEnv THEN IOEnv.ND_APPROVE = "true" ELSE TRUE]
+StepOf(s, r) == IF Handler THEN HStep(s, r, K) ELSE Step(s, r, K)
 
 \* JSON arrays arrive as sequences: turn them into the sets Node.tla uses
 
@@ -34,24 +43,31 @@ BadAt(i, Bad(_, _)) == {<<i, j>> : j \in {k \in DOMAIN Nodes[i].e : Bad(Nodes[i]
 EdgesWhere(Bad(_, _)) == UNION {BadAt(i, Bad) : i \in DOMAIN Nodes}
 
 Conforms(nd, e) ==
-  LET o == Step(Abs(nd.pre), Alphabet[e[2]], K) IN
+  LET o == StepOf(Abs(nd.pre), Alphabet[e[2]]) IN
   /\ o.resp = RespOf(e)
   /\ e[1] >= 0 => o.s = Abs(Nodes[e[1] + 1].pre)
 Divergent  == EdgesWhere(LAMBDA nd, e : ~Conforms(nd, e))
 FrameBad   == EdgesWhere(LAMBDA nd, e : e[3] = 0 /\ e[5] # 0)
 RestartBad == EdgesWhere(LAMBDA nd, e : nd.r0 = 1 /\ e[6] = 0)
+\* handler level: a refused request left pending mutations in the transactional store (they are sent to the
+\* cloud and committed although the caller was told "refused"); a crash between prepare and commit
+MutsBad    == EdgesWhere(LAMBDA nd, e : Len(e) >= 7 /\ e[3] = 0 /\ e[7] # 0)
+CrashBad   == EdgesWhere(LAMBDA nd, e : Len(e) >= 8 /\ nd.r0 = 1 /\ e[8] = 0)
 NEdges     == FoldLeft(LAMBDA acc, nd : acc + Len(nd.e), 0, Nodes)
 
 Describe(p) == LET nd == Nodes[p[1]] e == nd.e[p[2]] IN
   [node |-> nd.id, ri |-> e[2], pre |-> nd.pre, req |-> Alphabet[e[2]], resp |-> RespOf(e),
    post |-> IF e[1] >= 0 THEN Nodes[e[1] + 1].pre ELSE nd.pre, mask |-> e[5],
-   expected |-> LET o == Step(Abs(nd.pre), Alphabet[e[2]], K) IN [ok |-> o.resp.ok, flag |-> o.resp.flag]]
+   muts |-> IF Len(e) >= 7 THEN e[7] ELSE -1,
+   expected |-> LET o == StepOf(Abs(nd.pre), Alphabet[e[2]]) IN [ok |-> o.resp.ok, flag |-> o.resp.flag]]
 
 Report == [ nodes |-> Len(Nodes), expanded |-> Cardinality({i \in DOMAIN Nodes : Nodes[i].x}),
             edges |-> NEdges,
             divergences |-> SetToSeq({Describe(p) : p \in Divergent}),
             frame_bad   |-> SetToSeq({Describe(p) : p \in FrameBad}),
             restart_bad |-> SetToSeq({Describe(p) : p \in RestartBad}),
+            muts_bad    |-> SetToSeq({Describe(p) : p \in MutsBad}),
+            crash_bad   |-> SetToSeq({Describe(p) : p \in CrashBad}),
             tainted_states |-> Cardinality({i \in DOMAIN Nodes : Nodes[i].r0 = 0}) ]
 ASSUME JsonSerialize(IOEnv.ND_REPORT, Report)
 =============================================================================
